@@ -90,4 +90,158 @@ def solid_t_fluid_auto {K : Type} [Add K] [Sub K] [Mul K] [Div K] [Neg K]
   let transmission := ((((((o.ofNat 2) * rho_fluid) * c_fluid) * (o.cos alpha_l)) * (o.sin ((o.ofNat 2) * alpha_t))) / (((N * rho_solid) * c_l) * (o.cos alpha_fluid)))
   (reflection_l, reflection_t, transmission)
 
+/-- generated from `arim/model.py`, function `transmission_at_interface` (line 649): specialised: interface_kind=fluid_solid, mode_inc=L, mode_out=L, unit='stress' (`force_complex` only converts the dtype of the angles) -/
+def transmission_at_interface__fluid_solid_LL_stress {K : Type} [Add K] [Sub K] [Mul K] [Div K] [Neg K]
+    (o : Ops K) (angles_inc : K) (rho_fluid : K) (rho_solid : K) (c_fluid : K) (c_l : K) (c_t : K) : K :=
+  let alpha_fluid := angles_inc
+  let alpha_l := (snell_angles o alpha_fluid c_fluid c_l)
+  let alpha_t := (snell_angles o alpha_fluid c_fluid c_t)
+  let (refl, trans_l, trans_t) := (fluid_solid o alpha_fluid rho_fluid rho_solid c_fluid c_l c_t alpha_l alpha_t)
+  trans_l
+
+/-- generated from `arim/model.py`, function `transmission_at_interface` (line 649): specialised: interface_kind=fluid_solid, mode_inc=L, mode_out=L, unit='displacement' (`force_complex` only converts the dtype of the angles) -/
+def transmission_at_interface__fluid_solid_LL_displacement {K : Type} [Add K] [Sub K] [Mul K] [Div K] [Neg K]
+    (o : Ops K) (angles_inc : K) (rho_fluid : K) (rho_solid : K) (c_fluid : K) (c_l : K) (c_t : K) : K :=
+  let alpha_fluid := angles_inc
+  let alpha_l := (snell_angles o alpha_fluid c_fluid c_l)
+  let alpha_t := (snell_angles o alpha_fluid c_fluid c_t)
+  let (refl, trans_l, trans_t) := (fluid_solid o alpha_fluid rho_fluid rho_solid c_fluid c_l c_t alpha_l alpha_t)
+  let z := ((rho_fluid * c_fluid) / (rho_solid * c_l))
+  let trans_l := (trans_l * z)
+  let trans_t := (trans_t * z)
+  trans_l
+
+/-- generated from `arim/model.py`, function `transmission_at_interface` (line 649): specialised: interface_kind=fluid_solid, mode_inc=L, mode_out=T, unit='stress' (`force_complex` only converts the dtype of the angles) -/
+def transmission_at_interface__fluid_solid_LT_stress {K : Type} [Add K] [Sub K] [Mul K] [Div K] [Neg K]
+    (o : Ops K) (angles_inc : K) (rho_fluid : K) (rho_solid : K) (c_fluid : K) (c_l : K) (c_t : K) : K :=
+  let alpha_fluid := angles_inc
+  let alpha_l := (snell_angles o alpha_fluid c_fluid c_l)
+  let alpha_t := (snell_angles o alpha_fluid c_fluid c_t)
+  let (refl, trans_l, trans_t) := (fluid_solid o alpha_fluid rho_fluid rho_solid c_fluid c_l c_t alpha_l alpha_t)
+  trans_t
+
+/-- generated from `arim/model.py`, function `transmission_at_interface` (line 649): specialised: interface_kind=fluid_solid, mode_inc=L, mode_out=T, unit='displacement' (`force_complex` only converts the dtype of the angles) -/
+def transmission_at_interface__fluid_solid_LT_displacement {K : Type} [Add K] [Sub K] [Mul K] [Div K] [Neg K]
+    (o : Ops K) (angles_inc : K) (rho_fluid : K) (rho_solid : K) (c_fluid : K) (c_l : K) (c_t : K) : K :=
+  let alpha_fluid := angles_inc
+  let alpha_l := (snell_angles o alpha_fluid c_fluid c_l)
+  let alpha_t := (snell_angles o alpha_fluid c_fluid c_t)
+  let (refl, trans_l, trans_t) := (fluid_solid o alpha_fluid rho_fluid rho_solid c_fluid c_l c_t alpha_l alpha_t)
+  let z := ((rho_fluid * c_fluid) / (rho_solid * c_t))
+  let trans_l := (trans_l * z)
+  let trans_t := (trans_t * z)
+  trans_t
+
+/-- generated from `arim/model.py`, function `transmission_at_interface` (line 649): specialised: interface_kind=solid_fluid, mode_inc=L, mode_out=L, unit='stress' (`force_complex` only converts the dtype of the angles) -/
+def transmission_at_interface__solid_fluid_LL_stress {K : Type} [Add K] [Sub K] [Mul K] [Div K] [Neg K]
+    (o : Ops K) (angles_inc : K) (rho_fluid : K) (rho_solid : K) (c_fluid : K) (c_l : K) (c_t : K) : K :=
+  let alpha_l := angles_inc
+  let (refl_l, refl_t, transmission) := (solid_l_fluid_auto o alpha_l rho_fluid rho_solid c_fluid c_l c_t)
+  transmission
+
+/-- generated from `arim/model.py`, function `transmission_at_interface` (line 649): specialised: interface_kind=solid_fluid, mode_inc=L, mode_out=L, unit='displacement' (`force_complex` only converts the dtype of the angles) -/
+def transmission_at_interface__solid_fluid_LL_displacement {K : Type} [Add K] [Sub K] [Mul K] [Div K] [Neg K]
+    (o : Ops K) (angles_inc : K) (rho_fluid : K) (rho_solid : K) (c_fluid : K) (c_l : K) (c_t : K) : K :=
+  let alpha_l := angles_inc
+  let (refl_l, refl_t, transmission) := (solid_l_fluid_auto o alpha_l rho_fluid rho_solid c_fluid c_l c_t)
+  let z := ((rho_solid * c_l) / (rho_fluid * c_fluid))
+  let transmission := (transmission * z)
+  transmission
+
+/-- generated from `arim/model.py`, function `transmission_at_interface` (line 649): specialised: interface_kind=solid_fluid, mode_inc=T, mode_out=L, unit='stress' (`force_complex` only converts the dtype of the angles) -/
+def transmission_at_interface__solid_fluid_TL_stress {K : Type} [Add K] [Sub K] [Mul K] [Div K] [Neg K]
+    (o : Ops K) (angles_inc : K) (rho_fluid : K) (rho_solid : K) (c_fluid : K) (c_l : K) (c_t : K) : K :=
+  let alpha_t := angles_inc
+  let (refl_l, refl_t, transmission) := (solid_t_fluid_auto o alpha_t rho_fluid rho_solid c_fluid c_l c_t)
+  transmission
+
+/-- generated from `arim/model.py`, function `transmission_at_interface` (line 649): specialised: interface_kind=solid_fluid, mode_inc=T, mode_out=L, unit='displacement' (`force_complex` only converts the dtype of the angles) -/
+def transmission_at_interface__solid_fluid_TL_displacement {K : Type} [Add K] [Sub K] [Mul K] [Div K] [Neg K]
+    (o : Ops K) (angles_inc : K) (rho_fluid : K) (rho_solid : K) (c_fluid : K) (c_l : K) (c_t : K) : K :=
+  let alpha_t := angles_inc
+  let (refl_l, refl_t, transmission) := (solid_t_fluid_auto o alpha_t rho_fluid rho_solid c_fluid c_l c_t)
+  let z := ((rho_solid * c_t) / (rho_fluid * c_fluid))
+  let transmission := (transmission * z)
+  transmission
+
+/-- generated from `arim/model.py`, function `reflection_at_interface` (line 785): specialised: interface_kind=solid_fluid, mode_inc=L, mode_out=L, unit='stress' (`force_complex` only converts the dtype of the angles) -/
+def reflection_at_interface__solid_fluid_LL_stress {K : Type} [Add K] [Sub K] [Mul K] [Div K] [Neg K]
+    (o : Ops K) (angles_inc : K) (rho_fluid : K) (rho_solid : K) (c_fluid : K) (c_l : K) (c_t : K) : K :=
+  let angles_l := angles_inc
+  let (refl_l, refl_t, trans) := (solid_l_fluid_auto o angles_l rho_fluid rho_solid c_fluid c_l c_t)
+  let z := (c_l / c_l)
+  refl_l
+
+/-- generated from `arim/model.py`, function `reflection_at_interface` (line 785): specialised: interface_kind=solid_fluid, mode_inc=L, mode_out=L, unit='displacement' (`force_complex` only converts the dtype of the angles) -/
+def reflection_at_interface__solid_fluid_LL_displacement {K : Type} [Add K] [Sub K] [Mul K] [Div K] [Neg K]
+    (o : Ops K) (angles_inc : K) (rho_fluid : K) (rho_solid : K) (c_fluid : K) (c_l : K) (c_t : K) : K :=
+  let angles_l := angles_inc
+  let (refl_l, refl_t, trans) := (solid_l_fluid_auto o angles_l rho_fluid rho_solid c_fluid c_l c_t)
+  let z := (c_l / c_l)
+  (refl_l * z)
+
+/-- generated from `arim/model.py`, function `reflection_at_interface` (line 785): specialised: interface_kind=solid_fluid, mode_inc=L, mode_out=T, unit='stress' (`force_complex` only converts the dtype of the angles) -/
+def reflection_at_interface__solid_fluid_LT_stress {K : Type} [Add K] [Sub K] [Mul K] [Div K] [Neg K]
+    (o : Ops K) (angles_inc : K) (rho_fluid : K) (rho_solid : K) (c_fluid : K) (c_l : K) (c_t : K) : K :=
+  let angles_l := angles_inc
+  let (refl_l, refl_t, trans) := (solid_l_fluid_auto o angles_l rho_fluid rho_solid c_fluid c_l c_t)
+  let z := (c_l / c_t)
+  refl_t
+
+/-- generated from `arim/model.py`, function `reflection_at_interface` (line 785): specialised: interface_kind=solid_fluid, mode_inc=L, mode_out=T, unit='displacement' (`force_complex` only converts the dtype of the angles) -/
+def reflection_at_interface__solid_fluid_LT_displacement {K : Type} [Add K] [Sub K] [Mul K] [Div K] [Neg K]
+    (o : Ops K) (angles_inc : K) (rho_fluid : K) (rho_solid : K) (c_fluid : K) (c_l : K) (c_t : K) : K :=
+  let angles_l := angles_inc
+  let (refl_l, refl_t, trans) := (solid_l_fluid_auto o angles_l rho_fluid rho_solid c_fluid c_l c_t)
+  let z := (c_l / c_t)
+  (refl_t * z)
+
+/-- generated from `arim/model.py`, function `reflection_at_interface` (line 785): specialised: interface_kind=solid_fluid, mode_inc=T, mode_out=L, unit='stress' (`force_complex` only converts the dtype of the angles) -/
+def reflection_at_interface__solid_fluid_TL_stress {K : Type} [Add K] [Sub K] [Mul K] [Div K] [Neg K]
+    (o : Ops K) (angles_inc : K) (rho_fluid : K) (rho_solid : K) (c_fluid : K) (c_l : K) (c_t : K) : K :=
+  let angles_t := angles_inc
+  let (refl_l, refl_t, trans) := (solid_t_fluid_auto o angles_t rho_fluid rho_solid c_fluid c_l c_t)
+  let z := (c_t / c_l)
+  refl_l
+
+/-- generated from `arim/model.py`, function `reflection_at_interface` (line 785): specialised: interface_kind=solid_fluid, mode_inc=T, mode_out=L, unit='displacement' (`force_complex` only converts the dtype of the angles) -/
+def reflection_at_interface__solid_fluid_TL_displacement {K : Type} [Add K] [Sub K] [Mul K] [Div K] [Neg K]
+    (o : Ops K) (angles_inc : K) (rho_fluid : K) (rho_solid : K) (c_fluid : K) (c_l : K) (c_t : K) : K :=
+  let angles_t := angles_inc
+  let (refl_l, refl_t, trans) := (solid_t_fluid_auto o angles_t rho_fluid rho_solid c_fluid c_l c_t)
+  let z := (c_t / c_l)
+  (refl_l * z)
+
+/-- generated from `arim/model.py`, function `reflection_at_interface` (line 785): specialised: interface_kind=solid_fluid, mode_inc=T, mode_out=T, unit='stress' (`force_complex` only converts the dtype of the angles) -/
+def reflection_at_interface__solid_fluid_TT_stress {K : Type} [Add K] [Sub K] [Mul K] [Div K] [Neg K]
+    (o : Ops K) (angles_inc : K) (rho_fluid : K) (rho_solid : K) (c_fluid : K) (c_l : K) (c_t : K) : K :=
+  let angles_t := angles_inc
+  let (refl_l, refl_t, trans) := (solid_t_fluid_auto o angles_t rho_fluid rho_solid c_fluid c_l c_t)
+  let z := (c_t / c_t)
+  refl_t
+
+/-- generated from `arim/model.py`, function `reflection_at_interface` (line 785): specialised: interface_kind=solid_fluid, mode_inc=T, mode_out=T, unit='displacement' (`force_complex` only converts the dtype of the angles) -/
+def reflection_at_interface__solid_fluid_TT_displacement {K : Type} [Add K] [Sub K] [Mul K] [Div K] [Neg K]
+    (o : Ops K) (angles_inc : K) (rho_fluid : K) (rho_solid : K) (c_fluid : K) (c_l : K) (c_t : K) : K :=
+  let angles_t := angles_inc
+  let (refl_l, refl_t, trans) := (solid_t_fluid_auto o angles_t rho_fluid rho_solid c_fluid c_l c_t)
+  let z := (c_t / c_t)
+  (refl_t * z)
+
+/-- generated from `arim/model.py`, function `reflection_at_interface` (line 785): specialised: interface_kind=fluid_solid, mode_inc=L, mode_out=L, unit='stress' (`force_complex` only converts the dtype of the angles) -/
+def reflection_at_interface__fluid_solid_LL_stress {K : Type} [Add K] [Sub K] [Mul K] [Div K] [Neg K]
+    (o : Ops K) (angles_inc : K) (rho_fluid : K) (rho_solid : K) (c_fluid : K) (c_l : K) (c_t : K) : K :=
+  let angles_fluid := angles_inc
+  let (reflection, transmission_l, transmission_t) := (fluid_solid_auto o angles_fluid rho_fluid rho_solid c_fluid c_l c_t)
+  let z := (c_fluid / c_fluid)
+  reflection
+
+/-- generated from `arim/model.py`, function `reflection_at_interface` (line 785): specialised: interface_kind=fluid_solid, mode_inc=L, mode_out=L, unit='displacement' (`force_complex` only converts the dtype of the angles) -/
+def reflection_at_interface__fluid_solid_LL_displacement {K : Type} [Add K] [Sub K] [Mul K] [Div K] [Neg K]
+    (o : Ops K) (angles_inc : K) (rho_fluid : K) (rho_solid : K) (c_fluid : K) (c_l : K) (c_t : K) : K :=
+  let angles_fluid := angles_inc
+  let (reflection, transmission_l, transmission_t) := (fluid_solid_auto o angles_fluid rho_fluid rho_solid c_fluid c_l c_t)
+  let z := (c_fluid / c_fluid)
+  (reflection * z)
+
 end Arim.Src
